@@ -44,9 +44,9 @@ hj_of_ldn(int64_t L, struct hj_s *h)
 	return 0;
 }
 
-enum { H_YMD, H_YMCW, H_YWD, H_YD, H_DAISY, H_LDN, H_JDN, H_MDN, H_BIZDA, H_HIJRI, NHELD };
-static const char *const held_name[NHELD] = {"ymd", "ymcw", "ywd", "yd", "daisy", "ldn", "jdn", "mdn", "bizda", "hijri"};
-static const dt_dtyp_t held_typ[NHELD] = {DT_YMD, DT_YMCW, DT_YWD, DT_YD, DT_DAISY, DT_LDN, DT_JDN, DT_MDN, DT_BIZDA, DT_UMMULQURA};
+enum { H_YMD, H_YMCW, H_YWD, H_YD, H_DAISY, H_LDN, H_JDN, H_MDN, H_BIZDA, H_HIJRI, H_YMCW0, NHELD };
+static const char *const held_name[NHELD] = {"ymd", "ymcw", "ywd", "yd", "daisy", "ldn", "jdn", "mdn", "bizda", "hijri", "ymcw-w0"};
+static const dt_dtyp_t held_typ[NHELD] = {DT_YMD, DT_YMCW, DT_YWD, DT_YD, DT_DAISY, DT_LDN, DT_JDN, DT_MDN, DT_BIZDA, DT_UMMULQURA, DT_YMCW};
 
 /* the day as a ymd-held date-only value, through the public parser */
 static struct dt_dt_s
@@ -75,6 +75,19 @@ held_value(int H, const struct rc_day *p, struct dt_dt_s *out)
 		snprintf(text, sizeof(text), "%04d-%02d-%02db", p->y, p->m, p->bd);
 		v = dt_strpdt(text, NULL, NULL);
 		if (dt_unk_p(v) || v.d.typ != DT_BIZDA) {
+			return -1;
+		}
+		*out = v;
+		return 1;
+	case H_YMCW0:
+		/* a Sunday written the way %w spells it (00), through the public parser: info/format.texi gives %w the
+		 * range 00..06 and ymcw dates are %Y-%m-%c-%w; other days have no such spelling */
+		if (p->wd != 7) {
+			return 0;
+		}
+		snprintf(text, sizeof(text), "%04d-%02d-%02d-00", p->y, p->m, (p->d - 1) / 7 + 1);
+		v = dt_strpdt(text, NULL, NULL);
+		if (dt_unk_p(v) || v.d.typ != DT_YMCW) {
 			return -1;
 		}
 		*out = v;
